@@ -80,6 +80,18 @@ def run(ctx):
             rep.nontrivial.add((fmt, _insp.describe(final)))
         if want is not None and final != ('value', want):
             bad_final.setdefault(fmt, (label, sched, final, want))
+        # a region located behind the stream position cannot be captured in
+        # a real stream cut like this schedule: the size it carries is lost
+        # (the capture model would still hand it over)
+        if want:
+            for name, info in (res.get('born') or {}).items():
+                kind, off, _floor, chunk_floor = info
+                if kind != 'tail' and off is not None and \
+                        chunk_floor is not None and off < chunk_floor:
+                    bad_final.setdefault(fmt, (
+                        label, sched, ('value', 0), '%r (region %r is '
+                        'defined at offset %d after %d bytes have gone by)'
+                        % (want, name, off, chunk_floor)))
         if fmt in ZERO_WHILE_UNKNOWN:
             fin = _insp.val(final)
             for i, ch in enumerate(res['chunks']):
@@ -96,7 +108,7 @@ def run(ctx):
                   '%d runs agree with the reference decoder' % n_ok.get(
                       fmt, 0) if b is None else
                   'image %r under schedule %s: virtual_size is %s, the '
-                  'layout declares %r' % (b[0], b[1], _insp.describe(b[2]),
+                  'layout declares %s' % (b[0], b[1], _insp.describe(b[2]),
                                           b[3]),
                   case=None if b is None else {'image': b[0],
                                                'schedule': b[1]})
